@@ -22,7 +22,9 @@ import (
 	"sort"
 	"strconv"
 	"strings"
+	"syscall"
 	"time"
+	"unsafe"
 
 	"shanhu.io/g/caco3"
 	"verifharness/hx"
@@ -121,6 +123,13 @@ type Op struct {
 	Stat    *Stat  `json:"stat,omitempty"` // nil: delete
 	Content string `json:"content,omitempty"`
 	What    string `json:"what,omitempty"` // edit, touch, chmod, add, delete, rename, restore...
+	// Link: the source is a symbolic link with this target (as written,
+	// relative to the link's directory); Stat is then the link's OWN lstat
+	// (size = length of the target text, mode = symlink|0777, the mtime the
+	// harness gives the link itself).  K "outside": the file
+	// <root>/outside/o.txt - outside the source tree, the target of some links -
+	// gets Content and the mtime Stat.Mtime; no source changes.
+	Link string `json:"link,omitempty"`
 
 	Rules []Rule `json:"rules,omitempty"`
 
@@ -140,6 +149,24 @@ type SrcFile struct {
 	Name    string `json:"name"`
 	Stat    Stat   `json:"stat"`
 	Content string `json:"content"`
+	Link    string `json:"link,omitempty"` // a symbolic link with this target; Stat is its own lstat
+}
+
+// lutimes sets the modification time of path itself (a symbolic link is not followed).
+func lutimes(path string, ns int64) error {
+	ts := [2]syscall.Timespec{syscall.NsecToTimespec(ns), syscall.NsecToTimespec(ns)}
+	p, err := syscall.BytePtrFromString(path)
+	if err != nil {
+		return err
+	}
+	const atFdcwd = -100
+	const atSymlinkNofollow = 0x100
+	_, _, e := syscall.Syscall6(syscall.SYS_UTIMENSAT, uintptr(atFdcwd&0xffffffffffffffff), uintptr(unsafe.Pointer(p)),
+		uintptr(unsafe.Pointer(&ts[0])), atSymlinkNofollow, 0, 0)
+	if e != 0 {
+		return e
+	}
+	return nil
 }
 
 type Case struct {
@@ -260,12 +287,18 @@ func writeBuildFiles(root string, pkgs []string, rules []Rule) error {
 	return nil
 }
 
-func writeSrc(root, name, content string, st Stat) error {
+func writeSrc(root, name, content string, st Stat, link string) error {
 	f := filepath.Join(root, "src", filepath.FromSlash(name))
 	if err := os.MkdirAll(filepath.Dir(f), 0o755); err != nil {
 		return err
 	}
 	os.Remove(f)
+	if link != "" {
+		if err := os.Symlink(link, f); err != nil {
+			return err
+		}
+		return lutimes(f, st.Mtime)
+	}
 	if err := os.WriteFile(f, []byte(content), 0o644); err != nil {
 		return err
 	}
@@ -273,6 +306,20 @@ func writeSrc(root, name, content string, st Stat) error {
 		return err
 	}
 	t := time.Unix(0, st.Mtime)
+	return os.Chtimes(f, t, t)
+}
+
+// writeOutside (re)writes <root>/outside/o.txt, a file outside the source tree that links point to.
+func writeOutside(root, content string, mtimeNs int64) error {
+	d := filepath.Join(root, "outside")
+	if err := os.MkdirAll(d, 0o755); err != nil {
+		return err
+	}
+	f := filepath.Join(d, "o.txt")
+	if err := os.WriteFile(f, []byte(content), 0o644); err != nil {
+		return err
+	}
+	t := time.Unix(0, mtimeNs)
 	return os.Chtimes(f, t, t)
 }
 
@@ -298,6 +345,12 @@ func copyTree(from, to string) error {
 	if err := os.WriteFile(filepath.Join(to, "WORKSPACE.caco3"), bs, 0o644); err != nil {
 		return err
 	}
+	if ob, err := os.ReadFile(filepath.Join(from, "outside", "o.txt")); err == nil {
+		info, _ := os.Stat(filepath.Join(from, "outside", "o.txt"))
+		if err := writeOutside(to, string(ob), info.ModTime().UnixNano()); err != nil {
+			return err
+		}
+	}
 	src := filepath.Join(from, "src")
 	return filepath.Walk(src, func(p string, info os.FileInfo, err error) error {
 		if err != nil {
@@ -307,6 +360,16 @@ func copyTree(from, to string) error {
 		dst := filepath.Join(to, "src", rel)
 		if info.IsDir() {
 			return os.MkdirAll(dst, 0o755)
+		}
+		if info.Mode()&os.ModeSymlink != 0 { // a link is copied as a link, with its own mtime
+			target, err := os.Readlink(p)
+			if err != nil {
+				return err
+			}
+			if err := os.Symlink(target, dst); err != nil {
+				return err
+			}
+			return lutimes(dst, info.ModTime().UnixNano())
 		}
 		bs, err := os.ReadFile(p)
 		if err != nil {
@@ -534,8 +597,11 @@ func runCase(c *Case, withClean bool) {
 	if err := writeWorkspaceFile(root, c.Pkgs); err != nil {
 		fatal("workspace", err)
 	}
+	if err := writeOutside(root, "outside\n", (baseTime-5)*1000000000); err != nil {
+		fatal("outside", err)
+	}
 	for _, s := range c.Src {
-		if err := writeSrc(root, s.Name, s.Content, s.Stat); err != nil {
+		if err := writeSrc(root, s.Name, s.Content, s.Stat, s.Link); err != nil {
 			fatal("src", err)
 		}
 	}
@@ -557,6 +623,10 @@ func runCase(c *Case, withClean bool) {
 		switch op.K {
 		case "newbuilder":
 			bs.reset()
+		case "outside":
+			if err := writeOutside(root, op.Content, op.Stat.Mtime); err != nil {
+				fatal("outside", err)
+			}
 		case "wipe":
 			if err := os.RemoveAll(filepath.Join(root, "out")); err != nil {
 				fatal("wipe", err)
@@ -572,7 +642,7 @@ func runCase(c *Case, withClean bool) {
 				if err := os.Remove(f); err != nil {
 					fatal("remove src", err)
 				}
-			} else if err := writeSrc(root, op.Name, op.Content, *op.Stat); err != nil {
+			} else if err := writeSrc(root, op.Name, op.Content, *op.Stat, op.Link); err != nil {
 				fatal("write src", err)
 			}
 		case "rules":
